@@ -193,8 +193,16 @@ func runShard(bin string, spec *propSpec, ph phase, tier string, seed int64, sha
 	return o
 }
 
+// loadKnown reads /verif/known_findings.txt.  Lines:
+//
+//	known: property=<ID> sig=<signature> <what fails> | witness=<input>
+//	fixed: property=<ID> <commit> <what failed> | witness=<input>
+//
+// Only "known:" lines can downgrade a discrepancy, and only one whose
+// signature (call site + input predicate + exact failure, computed by the
+// monitor) matches exactly.  The file is never written at run time.
 func loadKnown() []knownEntry {
-	f, err := os.Open(filepath.Join(verifDir, "known_findings.jsonl"))
+	f, err := os.Open(filepath.Join(verifDir, "known_findings.txt"))
 	if err != nil {
 		return nil
 	}
@@ -204,13 +212,26 @@ func loadKnown() []knownEntry {
 	sc.Buffer(make([]byte, 1<<20), 1<<20)
 	for sc.Scan() {
 		line := strings.TrimSpace(sc.Text())
-		if line == "" || strings.HasPrefix(line, "#") {
+		var k knownEntry
+		switch {
+		case strings.HasPrefix(line, "known:"):
+			k.Status = "known"
+			line = strings.TrimSpace(line[len("known:"):])
+		case strings.HasPrefix(line, "fixed:"):
+			k.Status = "fixed"
+			line = strings.TrimSpace(line[len("fixed:"):])
+		default:
 			continue
 		}
-		var k knownEntry
-		if json.Unmarshal([]byte(line), &k) == nil {
-			out = append(out, k)
+		for _, f := range strings.Fields(line) {
+			if strings.HasPrefix(f, "property=") && k.Property == "" {
+				k.Property = f[len("property="):]
+			} else if strings.HasPrefix(f, "sig=") && k.Sig == "" {
+				k.Sig = f[len("sig="):]
+			}
 		}
+		k.What = line
+		out = append(out, k)
 	}
 	return out
 }
